@@ -698,6 +698,11 @@ def apply_edit(prog, e):
     if k in ("const", "nested", "setc", "tup", "fstr", "posdef", "kwdef", "salt"):
         nodes[e["node"]][k] = e["value"]
         touched.add(("n", e["node"]))
+    elif k == "set_explicit":
+        # the user edits an explicitly versioned function and chooses the new version string (crafted histories)
+        nodes[e["node"]]["explicit"] = e["value"]
+        nodes[e["node"]]["const"] = e["const"]
+        touched.add(("n", e["node"]))
     elif k == "define_builtin":
         p.setdefault("bshadow", {})[str(e["module"])] = e["value"]
         touched.add(("b", e["module"]))
